@@ -363,7 +363,10 @@ req0_recv_cb(void *arg)
 	}
 
 	// We have our match, so we can remove this.
+	// (The request is complete: what happens to the connection from now
+	// on is no longer its business.)
 	nni_list_node_remove(&ctx->send_node);
+	nni_list_node_remove(&ctx->pipe_node);
 	nni_id_remove(&s->requests, id);
 	ctx->request_id = 0;
 	if (ctx->req_msg != NULL) {
